@@ -409,18 +409,13 @@ def _derived(ctx, prog):
            f"path_length is {fmt(ret)}", key="C08.7:def:path_length")
     fa = prog.func("evo.core.geometry.arc_len")
     xa = tm.param(fa.params[0])
-    ra = plain.run(fa).ret
-    S1_ = T("slice", const(1), tm.NONE, tm.NONE)
-    SM1_ = T("slice", tm.NONE, const(-1), tm.NONE)
+    # (private helpers of geometry.py are looked through)
+    ra = Interp(prog, inline_properties=False).run(fa).ret
     nrm = ra.args[1][0] if is_call_to(ra, "numpy.sum", ".sum") and \
         ra.args[1] else (tm.method_recv(ra) if is_call_to(ra, ".sum")
                          else None)
-    ok = nrm is not None and is_call_to(nrm, "numpy.linalg.norm") and \
-        nrm.args[1] and nrm.args[1][0].op == "binop" and \
-        nrm.args[1][0].args[0] == "Sub" and \
-        {nrm.args[1][0].args[1], nrm.args[1][0].args[2]} == {
-            tm.sub(xa, SM1_), tm.sub(xa, S1_)} and \
-        tm.is_const(dict(nrm.args[2]).get("axis", tm.NONE), 1)
+    from ..lib import step_norms
+    ok = nrm is not None and step_norms(nrm, xa) is True
     ctx.ob("C08.7", fa, bool(ok),
            "arc_len = sum of the consecutive step lengths |x_k - x_(k+1)|"
            if ok else f"arc_len is {fmt(ra)}", key="C08.7:def:arc_len")
